@@ -138,12 +138,13 @@ class Geometry:
             voxel_volume = voxel_volume.reshape(
                 voxel_volume.shape + (1,) * (fetched_data.ndim - voxel_volume.ndim)
             )
-        if isinstance(data, np.ndarray):
-            weighted_sum = np.multiply(voxel_volume, data)
-        elif isinstance(data, darsia.Image):
-            weighted_sum = np.multiply(voxel_volume, data.img)
-        else:
+        if not isinstance(data, (np.ndarray, darsia.Image)):
             raise ValueError("Data type not supported.")
+        # NOTE: Integrate in double precision, also for half and single precision data;
+        # a scalar voxel volume does not promote the data type of the product.
+        if fetched_data.dtype.kind == "f" and fetched_data.dtype.itemsize < 8:
+            fetched_data = fetched_data.astype(np.float64)
+        weighted_sum = np.multiply(voxel_volume, fetched_data)
         for i in range(self.space_dim):
             weighted_sum = np.sum(weighted_sum, axis=0)
         return weighted_sum
